@@ -1186,12 +1186,27 @@ fn read_back(secs: &Secs, le: bool) -> Result<Vec<RUnit>, String> {
 // ================================================================ comparison
 
 fn match_resolved(exp: &[RExp], got: &[RRes]) -> Result<(u64, u64, u64, bool), String> {
+    // `got` must equal the model list with some subset of the optional (`must == false`)
+    // entries removed.  A greedy left-to-right match is not enough: an optional entry may be
+    // identical to a mandatory one that follows it, so the match is decided by dynamic
+    // programming over (model index, read-back index).
+    let (n, m) = (exp.len(), got.len());
+    let same = |e: &RExp, g: &RRes| g.data == e.data && (e.default || (g.begin == e.begin && g.end == e.end));
+    let mut ok = vec![vec![false; m + 1]; n + 1];
+    ok[n][m] = true;
+    for i in (0..n).rev() {
+        for j in (0..=m).rev() {
+            let take = j < m && same(&exp[i], &got[j]) && ok[i + 1][j + 1];
+            let skip = !exp[i].must && ok[i + 1][j];
+            ok[i][j] = take || skip;
+        }
+    }
     let (mut must, mut absent, mut present, mut default_range_differs) = (0, 0, 0, false);
     let mut j = 0;
     for (i, e) in exp.iter().enumerate() {
         let g = got.get(j);
-        let same = g.map_or(false, |g| g.data == e.data && (e.default || (g.begin == e.begin && g.end == e.end)));
-        if same {
+        let take = g.map_or(false, |g| same(e, g)) && (!ok[0][0] || ok[i + 1][j + 1]);
+        if take {
             if e.default && g.map_or(false, |g| g.begin != e.begin || g.end != e.end) {
                 default_range_differs = true;
             }
